@@ -79,12 +79,20 @@ type ByteObj struct {
 }
 
 type mapEntry struct {
-	k, v Value
+	k, v     Value
+	ks       string // canonical key when concrete
+	concrete bool
+	dead     bool
 }
 
+// Map is insertion-ordered. Entries with fully concrete keys are indexed by a
+// canonical string; entries whose key contains symbolic terms are found by
+// forking on equality with each candidate.
 type Map struct {
-	keys    []string // insertion order of canonical keys
-	entries map[string]*mapEntry
+	order []*mapEntry
+	idx   map[string]*mapEntry
+	nsym  int
+	live  int
 }
 
 type Chan struct {
@@ -92,7 +100,7 @@ type Chan struct {
 	cap    int
 	closed bool
 	id     int
-	// waiting senders for unbuffered channels are modelled by the scheduler
+	// waiting receivers on an unbuffered channel (rendezvous)
 	recvWaiting int
 }
 
@@ -410,36 +418,74 @@ func (m *Machine) writeKey(sb *strings.Builder, v Value) {
 	}
 }
 
-func (mp *Map) lookup(k string) (*mapEntry, bool) {
-	if mp == nil {
-		return nil, false
-	}
-	e, ok := mp.entries[k]
-	return e, ok
+func newMap() *Map { return &Map{idx: map[string]*mapEntry{}} }
+
+// tryKeyString returns the canonical key string if v is fully concrete.
+func (m *Machine) tryKeyString(v Value) (ks string, ok bool) {
+	defer func() {
+		if r := recover(); r != nil {
+			if _, is := r.(engineErr); is {
+				ok = false
+				return
+			}
+			panic(r)
+		}
+	}()
+	return m.keyString(v), true
 }
 
-func (mp *Map) insert(ks string, k, v Value) {
-	if e, ok := mp.entries[ks]; ok {
+// mapFind locates the entry for key k, forking on symbolic equality where needed.
+func (m *Machine) mapFind(fr *frame, mp *Map, kt types.Type, k Value) *mapEntry {
+	if mp == nil {
+		return nil
+	}
+	ks, conc := m.tryKeyString(k)
+	if conc {
+		if e, ok := mp.idx[ks]; ok && !e.dead {
+			return e
+		}
+		if mp.nsym == 0 {
+			return nil
+		}
+	}
+	for _, e := range mp.order {
+		if e.dead || (conc && e.concrete) {
+			continue
+		}
+		if m.branch(m.equals(fr, kt, e.k, k)) {
+			return e
+		}
+	}
+	return nil
+}
+
+func (m *Machine) mapInsert(fr *frame, mp *Map, kt types.Type, k, v Value) {
+	if e := m.mapFind(fr, mp, kt, k); e != nil {
 		e.v = v
 		return
 	}
-	mp.entries[ks] = &mapEntry{k, v}
-	mp.keys = append(mp.keys, ks)
+	e := &mapEntry{k: k, v: v}
+	if ks, ok := m.tryKeyString(k); ok {
+		e.ks, e.concrete = ks, true
+		mp.idx[ks] = e
+	} else {
+		mp.nsym++
+	}
+	mp.order = append(mp.order, e)
+	mp.live++
 }
 
-func (mp *Map) remove(ks string) {
-	if mp == nil {
+func (m *Machine) mapDelete(fr *frame, mp *Map, kt types.Type, k Value) {
+	e := m.mapFind(fr, mp, kt, k)
+	if e == nil {
 		return
 	}
-	if _, ok := mp.entries[ks]; !ok {
-		return
-	}
-	delete(mp.entries, ks)
-	for i, k := range mp.keys {
-		if k == ks {
-			mp.keys = append(mp.keys[:i:i], mp.keys[i+1:]...)
-			break
-		}
+	e.dead = true
+	mp.live--
+	if e.concrete {
+		delete(mp.idx, e.ks)
+	} else {
+		mp.nsym--
 	}
 }
 
@@ -447,7 +493,7 @@ func (mp *Map) length() int {
 	if mp == nil {
 		return 0
 	}
-	return len(mp.entries)
+	return mp.live
 }
 
 // ---------- strings ----------
